@@ -17,6 +17,8 @@ pub struct Accept {
     pub race_large: bool,
     /// no thread can step (strictly: without MAY-only spurious allowances) and some are unfinished
     pub deadlocked: bool,
+    /// some lock is poisoned at the end of the replay
+    pub poisoned: bool,
     pub all_done: bool,
     pub leak: Option<String>,
     pub leaks: Vec<String>,
@@ -141,7 +143,7 @@ fn replay_once<'p>(p: &'p Program, hist: &[HEv], cfg: &MachineCfg, partial: bool
             any_enabled = true;
         }
     }
-    Ok(Accept { race, race_large, deadlocked: !any_enabled && !all_done, all_done, leak: if all_done { m.leak() } else { None }, leaks: if all_done { m.leaks() } else { vec![] }, results: m.results.clone() })
+    Ok(Accept { race, race_large, deadlocked: !any_enabled && !all_done, poisoned: m.any_lock_poisoned(), all_done, leak: if all_done { m.leak() } else { None }, leaks: if all_done { m.leaks() } else { vec![] }, results: m.results.clone() })
 }
 
 /// fire the hidden sub-steps of a block_on (registration, wake-up) until its next poll
@@ -429,6 +431,7 @@ pub fn class_of_terminal(t: &Terminal) -> Option<FailClass> {
         Terminal::Race => Some(FailClass::Race),
         Terminal::Leak(k) => Some(FailClass::Leak(k.clone())),
         Terminal::Livelock => Some(FailClass::BranchLimit),
+        Terminal::Poison => Some(FailClass::Poison),
     }
 }
 
